@@ -242,9 +242,13 @@ func (l *Loaded) keyLayoutEnv(fn *ssa.Function, env *klEnv, depth int) *keyLayou
 				}
 				kl.segs = append(kl.segs, classify(src))
 			case full == "(*bytes.Buffer).WriteString":
-				s := Sym(args[1])
+				sv, _ := env.resolve(args[1])
+				s := Sym(sv)
 				if k, ok := strConst(args[1]); ok {
 					kl.segs = append(kl.segs, seg{kind: "const", bytes: fmt.Sprintf("%x", k)})
+				} else if f := lastField(s); f == "Owner" || f == "Provider" || f == "Auditor" {
+					// an address kept as text, written as such (same bytes as Write([]byte(addr)))
+					kl.segs = append(kl.segs, seg{kind: "addrstr", field: f, src: s})
 				} else {
 					kl.segs = append(kl.segs, seg{kind: "var", field: lastField(s), src: s})
 				}
